@@ -36,13 +36,28 @@ let valtok (v : n list) =
     Printf.sprintf "#%d.%016Lx" len !h end
 let trigs_of t = if t = "." then [] else List.map bytes_of_hex (String.split_on_char '+' t)
 let trigtok (l : n list list) =
-  if l = [] then "." else String.concat "+" (List.sort compare (List.map hex_of_bytes l))
+  if l = [] then "." else String.concat "+" (List.sort_uniq compare (List.map hex_of_bytes l))
 
-let parse_op tok =
+(* length of the value written as token t, without building it *)
+let value_len t =
+  if String.length t > 0 && t.[0] = '#' then begin
+    let x = String.index t 'x' in
+    max (int_of_string (String.sub t 1 (x - 1))) ((String.length t - x - 1) / 2) end
+  else if t = "-" then 0 else String.length t / 2
+(* the environment of the process-shared variant: a value larger than the whole shared segment cannot be
+   copied into it, string_type tmp = to_int(a) throws std::bad_alloc and store() returns (fault FDropBefore) *)
+let fault_of backend vtok =
+  if String.length backend > 1 && backend.[0] = 'p' then begin
+    let kib = int_of_string (String.sub backend 1 (String.length backend - 1)) in
+    if value_len vtok > kib * 1024 then FDropBefore else FNone end
+  else FNone
+
+let parse_op backend tok =
   match String.split_on_char ':' tok with
   | ["S"; k; v; tr; d; g] ->
-      ("s", Store (bytes_of_hex k, value_of v, trigs_of tr, z_of_string d,
-                   (if g = "-" then None else Some (n_of_string g)), FNone, []))
+      let f = fault_of backend v in
+      ("s", Store (bytes_of_hex k, (if f = FNone then value_of v else []), trigs_of tr, z_of_string d,
+                   (if g = "-" then None else Some (n_of_string g)), f, []))
   | ["F"; k] -> ("f", Fetch (bytes_of_hex k))
   | ["R"; t] -> ("r", Rise (bytes_of_hex t))
   | ["D"; k] -> ("d", Remove (bytes_of_hex k))
@@ -50,9 +65,48 @@ let parse_op tok =
   | ["T"; n] -> ("t", Tick (z_of_string n))
   | _ -> failwith "bad op"
 
+(* ---- cache_interface model (coq/C07/Ifc.v): modes ifc (context-free interface) and ifp (request contexts, page ops).
+   The driver steps the model one operation at a time because two facts about a request are part of the
+   harness protocol and depend on earlier answers: a request whose response was finalized (fetch_page hit or
+   store_page) skips further page operations, and store_page stores copied_data(), which is the data written
+   only when a fetch_page miss switched copy_to_cache on. ---- *)
+let z_of_int_str s = z_of_string s
+let stats_tok st = let (k, t) = stats st.i_cache in string_of_n k ^ "/" ^ string_of_n t
+let run_ifc lim t0 toks =
+  let st = ref (i_init (n_of_string lim)) and now = ref (z_of_string t0) in
+  let gz = ref false and finished = ref false and copying = ref false in
+  let step o = let ((n', st'), out) = i_step !now o !st in now := n'; st := st'; out in
+  let one tok =
+    let body = match String.split_on_char ':' tok with
+      | ["S"; k; v; tr; secs; notr] ->
+          ignore (step (IStore (bytes_of_hex k, value_of v, trigs_of tr, z_of_string secs, notr = "1"))); "s"
+      | ["F"; k; notr] ->
+          (match step (IFetch (bytes_of_hex k, notr = "1")) with IHit v -> "h:" ^ valtok v | _ -> "m")
+      | ["A"; t] -> ignore (step (IAdd (bytes_of_hex t))); "a"
+      | ["R"; t] -> ignore (step (IRise (bytes_of_hex t))); "r"
+      | ["C"] -> ignore (step IClear); "c"
+      | ["X"] -> ignore (step IReset); "x"
+      | ["T"; n] -> ignore (step (ITick (z_of_string n))); "t"
+      | ["("] -> ignore (step IAttach); "("
+      | [")"] -> (match step IDetach with IRec r -> ")" ^ trigtok r | _ -> ")none")
+      | ["N"; g] -> ignore (step INewRequest); gz := (g = "1"); finished := false; copying := false; "n"
+      | ["G"; k] ->
+          if !finished then "skip" else
+          (match step (IFetchPage (bytes_of_hex k, !gz)) with
+           | IHit v -> finished := true; if !gz then "h:Z" else "h:" ^ valtok v
+           | _ -> copying := true; "m")
+      | ["P"; k; d; secs] ->
+          if !finished then "skip" else begin
+            let data = if !copying then value_of d else [] in
+            ignore (step (IStorePage (bytes_of_hex k, data, z_of_string secs))); finished := true; "p" end
+      | _ -> failwith "bad ifc op" in
+    body ^ ":" ^ stats_tok !st in
+  let outs = List.map one toks in
+  if !st.i_cache.err then "FUEL" else String.concat " " outs
+
 let () = main_loop (function
-  | "seq" :: _backend :: lim :: t0 :: toks ->
-      let ops = List.map parse_op toks in
+  | "seq" :: backend :: lim :: t0 :: toks ->
+      let ops = List.map (parse_op backend) toks in
       let ((_, s), answers) = run (z_of_string t0) (List.map snd ops) (init (n_of_string lim)) in
       if s.err then "FUEL" else
       String.concat " " (List.map2 (fun (tag, _) (o, (k, t)) ->
@@ -61,4 +115,5 @@ let () = main_loop (function
         | OHit (v, tr, d, g) -> "h:" ^ valtok v ^ ":" ^ trigtok tr ^ ":" ^ string_of_z d ^ ":" ^ string_of_n g ^ ":" ^ st
         | OMiss -> "m:" ^ st
         | ONone -> tag ^ ":" ^ st) ops answers)
+  | ("ifc" | "ifp") :: _backend :: lim :: t0 :: toks -> run_ifc lim t0 toks
   | _ -> "BAD-CASE")
